@@ -81,7 +81,7 @@ func VerifC06_q_filterBindAgree() {
 	w.setStatefulSet(2)
 	w.createPod(pod)
 	w.syncListers()
-	pre := w.dump()
+	pre := w.dumpExpected()
 	held := 0
 	for _, e := range pre {
 		if e.Allocated {
@@ -137,7 +137,7 @@ func VerifC06_q_filterBindAgree() {
 		verifAssert("C06/one-ip-per-range", len(ips) == nReq, "number of bound IPs differs from the number of requested ranges")
 	}
 	args, _ := constant.UnmarshalCniArgs(w.pods[name].Annotations[constant.ExtendedCNIArgsAnnotation])
-	post := w.dump()
+	post := w.dumpExpected()
 	for i, ip := range ips {
 		for _, e := range post {
 			if e.IP != ip {
@@ -196,4 +196,21 @@ func VerifC06_q_retryAfterFailedBind() {
 		verifAssert("C06/retry-one-ip-per-range", len(vpBoundIPs(w.pods[name])) == nReq, "the retried Bind did not yield one IP per requested range")
 	}
 	verifAssert("C06/retry-agree", w.agree(), "memory and store disagree after the retried Bind")
+}
+
+// dumpExpected: the allocation table, with node subnets / mask / gateway / VLAN per address taken from the topology's
+// pool definitions (floatingip.VerifExpect), not from the pool the table attached the address to; the two must agree.
+func (w *vpWorld) dumpExpected() []floatingip.VerifEntry {
+	d := w.dump()
+	for i := range d {
+		if x, ok := floatingip.VerifExpect(w.topo, d[i].IP); ok {
+			same := d[i].Mask == x.Mask && d[i].Gateway == x.Gateway && d[i].Vlan == x.Vlan && len(d[i].NodeSubnets) == len(x.NodeSubnets)
+			for j := 0; same && j < len(x.NodeSubnets); j++ {
+				same = d[i].NodeSubnets[j] == x.NodeSubnets[j]
+			}
+			verifAssert("C06/table-matches-configuration", same, "the table attaches "+d[i].IP+" to a pool with other node subnets / mask / gateway / VLAN than the configured pool whose ranges contain it")
+			d[i].NodeSubnets, d[i].Mask, d[i].Gateway, d[i].Vlan = x.NodeSubnets, x.Mask, x.Gateway, x.Vlan
+		}
+	}
+	return d
 }
